@@ -100,7 +100,17 @@ func genTraverse(sh *Shape) {
 
 // ---- parameter naming variants ------------------------------------------------------
 // names per parameter: n ordinary, b blank, f / e / p: names the templates use themselves
-func paramNames(nm Naming) []string {
+func paramNames(nm Naming) []string { return paramNamesFor(nm, false) }
+
+// paramNamesFor: uncurry = position 0 is the outer function's parameter (blank -> param_0), positions 1.. are the
+// returned function's parameters (blank at inner index k -> innerParam_k).
+func paramNamesFor(nm Naming, uncurry bool) []string {
+	minted := func(j int) string { // the name the blank-renaming mints for position j
+		if uncurry && j >= 1 {
+			return fmt.Sprintf("innerParam_%d", j-1)
+		}
+		return fmt.Sprintf("param_%d", j)
+	}
 	out := make([]string, len(nm.V))
 	for i, v := range nm.V {
 		switch v {
@@ -112,8 +122,24 @@ func paramNames(nm Naming) []string {
 			out[i] = "f"
 		case "e":
 			out[i] = "err"
-		case "p":
+		case "p": // equals the minted name of the nearest later blank, else merely carries the prefix
 			out[i] = "param_7"
+			if uncurry && i >= 1 {
+				out[i] = "innerParam_7"
+			}
+			for j := i + 1; j < len(nm.V); j++ {
+				if nm.V[j] == "b" {
+					out[i] = minted(j)
+					break
+				}
+			}
+		case "q": // equals the minted name of the nearest earlier blank
+			for j := i - 1; j >= 0; j-- {
+				if nm.V[j] == "b" {
+					out[i] = minted(j)
+					break
+				}
+			}
 		case "u":
 			out[i] = ""
 		}
